@@ -17,16 +17,17 @@ VARIABLES l
 
 Groups == ndJsonDeserialize(IOEnv.TRACE)
 
-Rng(s) == {s[i] : i \in DOMAIN s}
-Obs(o) == <<o.rc, o.root, o.amb, o.calls, Rng(o.trees), o.over, o.thash>>
-
-Same(g) == \A i, j \in DOMAIN g.outs : Obs(g.outs[i]) = Obs(g.outs[j])
+(* An outcome carries the settings that must not matter (lookahead and debug level for C09, the library -
+   C or C++ - for C16) and the observation `obs' (return code, callbacks, ambiguity flag, sorted list of
+   denoted trees with costs, DAG hash; for definitions: return code and error message). *)
+Same(g) == \A i, j \in DOMAIN g.outs : g.outs[i].obs = g.outs[j].obs
 
 Init == l = 1
 Step == /\ l <= Len(Groups)
         /\ (~Same(Groups[l]) =>
               PrintT(<<"REJ", l, Groups[l].id,
-                       {"C09: outcome depends on the lookahead or debug level"}>>))
+                       {IF Groups[l].kind = "C16" THEN "C16: the C++ interface and the C interface disagree"
+                        ELSE "C09: outcome depends on the lookahead or debug level"}>>))
         /\ l' = l + 1
 Spec == Init /\ [][Step]_l
 
